@@ -32,10 +32,20 @@ Inductive kase :=
 (* CPRegressor.fit: the loop around the concrete ridge blocks.  tape = the factors after pass 1, 2, ... (from runs with
    n_iter_max = 1, 2, ... and no stopping); T.solve answers are read from the tape and, from pass 2 on, certified
    (A x = B) against the model's design matrices; the run (n_iter_max, tol) must store eW / efs *)
-| KCpLoop (n_iter : nat) (tol reg : Q) (R : nat) (so : list nat) (X y : tensor Q) (tape : list (list (tensor Q)))
-          (eW : tensor Q) (efs : list (tensor Q))
+| KCpLoop (n_iter : nat) (tol reg : Q) (R : nat) (so : list nat) (X y : tensor Q) (W0 : list (tensor Q))
+          (tape : list (list (tensor Q))) (eW : tensor Q) (efs : list (tensor Q))
 (* TuckerRegressor.fit: the same around the concrete factor and core blocks; tape of (core, factors) *)
-| KTkLoop (n_iter : nat) (tol reg : Q) (X y : tensor Q) (tape : list (tensor Q * list (tensor Q))) (eW : tensor Q)
+| KTkLoop (n_iter : nat) (tol reg : Q) (X y : tensor Q) (G0 : tensor Q) (W0 : list (tensor Q))
+          (tape : list (tensor Q * list (tensor Q))) (eW : tensor Q)
+(* W0 / G0 = the random initial factors (replayed from the seeded generator): with them pass 1 is certified too; W0 = [] : unknown
+   (pass 1 played back) *)
+(* CP_PLSR.fit on consistently re-ordered samples (X[p], Y[p]): the implementation's results on the re-ordered data against the
+   model's on the ORIGINAL data re-ordered by pick (tapes from the original run) *)
+| KPlsrFitPerm (p : list nat) (n_iter ncomp : nat) (tol : Q) (itape : list (tensor Q * list (tensor Q))) (btape : list (list Q))
+           (X Y : tensor Q) (e_loads : list (list (tensor Q))) (e_scores : list (list Q))
+           (e_yloads : list (tensor Q)) (e_yscores : list (list Q))
+(* the budget test of CP_PLSR.fit: does fit raise? *)
+| KPlsrBudget (n_iter ncomp : nat) (X Y : tensor Q) (raised : bool)
 (* T.mean(X, axis=0) and the centring *)
 | KMean (X expected : tensor Q)
 (* the whole of CP_PLSR.fit with a fixed number of passes (tol = 0: never stops early; tol huge: stops after the
@@ -80,16 +90,24 @@ Fixpoint all2 {A B} (f : A -> B -> bool) (a : list A) (b : list B) : bool :=
 
 Local Open Scope nat_scope.
 Definition plsr_run (n_iter ncomp : nat) (tol : Q) itape btape (X Y : tensor Q) :=
-  fit_cp Zfx zsqrt (fun Z => map t_to_fx (init_of itape (t_of_fx Z)))
+  cp_plsr_fit Zfx zsqrt (fun Z => map t_to_fx (init_of itape (t_of_fx Z)))
          (fun G b => map to_fx (solve_of btape G b)) (to_fx tol) n_iter ncomp (t_to_fx X) (t_to_fx Y).
-Definition plsr_close (r : plsr (F:=Z)) e_loads e_scores e_yloads e_yscores : bool :=
+Definition plsr_close_sel (sel : list Z -> list Z) (rr : res (plsr (F:=Z))) e_loads e_scores e_yloads e_yscores : bool :=
+  match rr with
+  | Err => false
+  | Ok r =>
   all2 (all2 (fun a e => qt_close ftol ftol (t_of_fx a) e)) (loadings r) e_loads &&
-  all2 (fun a e => q_list_close ftol ftol (map of_fx a) e) (fitted_scores r) e_scores &&
+  all2 (fun a e => q_list_close ftol ftol (map of_fx (sel a)) e) (fitted_scores r) e_scores &&
   all2 (fun a e => qt_close ftol ftol (t_of_fx a) e) (map (c_yload (F:=Z)) (comps r)) e_yloads &&
-  all2 (fun a e => q_list_close ftol ftol (map of_fx a) e) (map (c_yscore (F:=Z)) (comps r)) e_yscores.
+  all2 (fun a e => q_list_close ftol ftol (map of_fx (sel a)) e) (map (c_yscore (F:=Z)) (comps r)) e_yscores
+  end.
+Definition plsr_close := plsr_close_sel (fun a => a).
 Definition zl_eqb (a b : list Z) : bool := z_list_eqb a b.
-Definition plsr_same (a b : plsr (F:=Z)) : bool :=
-  all2 zl_eqb (fitted_scores a) (fitted_scores b) && all2 (all2 zt_eqb) (loadings a) (loadings b).
+Definition plsr_same (ra rb : res (plsr (F:=Z))) : bool :=
+  match ra, rb with
+  | Ok a, Ok b => all2 zl_eqb (fitted_scores a) (fitted_scores b) && all2 (all2 zt_eqb) (loadings a) (loadings b)
+  | _, _ => false
+  end.
 
 (* ---- the regressors' loop ---- *)
 Definition znorm (t : tensor Z) : Z := zsqrt (fold_left (fun acc x => Z.add acc (fmul Zfx x x)) (data t) 0%Z).
@@ -112,26 +130,30 @@ Definition solve_chk (check : bool) (kin : nat) (newfs : list (tensor Z)) (i : n
   let x := solve_answer kin (nth i newfs (mk [] [])) i in
   if negb check || zt_close (zmatmul A x) B then x else mk [] [].
 Definition ones_fx (R : nat) : tensor Z := tabulate [R] (fun _ => f1 Zfx).
-Definition cp_loop_run (n_iter : nat) (tol reg : Q) (R : nat) (so : list nat) (X y : tensor Q) (tape : list (list (tensor Q))) :=
+Definition cp_loop_run (n_iter : nat) (tol reg : Q) (R : nat) (so : list nat) (X y : tensor Q) (W0 : list (tensor Q))
+  (tape : list (list (tensor Q))) :=
   let Xz := t_to_fx X in let yz := t_to_fx y in let kin := length (sshape X) in
+  let known := negb (Nat.eqb (length W0) 0) in
   let sweep := fun st : nat * list (tensor Z) =>
     let newfs := map t_to_fx (nth (fst st) tape []) in
-    (S (fst st), cp_sweep Zfx (solve_chk (0 <? fst st) kin newfs) (to_fx reg) Xz yz so R
-                   (if fst st =? 0 then newfs else snd st)) in
-  reg_fit sweep (fun st => Regress.cp_to_tensor Zfx (ones_fx R) (snd st)) znorm (zsmall (to_fx tol)) n_iter (0, []).
+    (S (fst st), cp_sweep Zfx (solve_chk (known || (0 <? fst st)) kin newfs) (to_fx reg) Xz yz so R
+                   (if (fst st =? 0) && negb known then newfs else snd st)) in
+  reg_fit sweep (fun st => Regress.cp_to_tensor Zfx (ones_fx R) (snd st)) znorm (zsmall (to_fx tol)) n_iter (0, map t_to_fx W0).
 Definition tk_solve_chk (check : bool) (newb : tensor Z * list (tensor Z)) (i : nat) (A B : tensor Z) : tensor Z :=
   let t := if i <? length (snd newb) then nth i (snd newb) (mk [] []) else fst newb in
   let x := reshape [prod (shape t)] t in
   if negb check || zt_close (zmatmul A x) B then x else mk [] [].
-Definition tk_loop_run (n_iter : nat) (tol reg : Q) (X y : tensor Q) (tape : list (tensor Q * list (tensor Q))) :=
+Definition tk_loop_run (n_iter : nat) (tol reg : Q) (X y : tensor Q) (G0 : tensor Q) (W0 : list (tensor Q))
+  (tape : list (tensor Q * list (tensor Q))) :=
   let Xz := t_to_fx X in let yz := t_to_fx y in
+  let known := negb (Nat.eqb (length W0) 0) in
   let sweep := fun st : nat * (tensor Z * list (tensor Z)) =>
     let e := nth (fst st) tape (mk [] [], []) in
     let newb := (t_to_fx (fst e), map t_to_fx (snd e)) in
-    (S (fst st), tk_concrete_sweep Zfx (tk_solve_chk (0 <? fst st) newb) (to_fx reg) Xz yz
-                   (if fst st =? 0 then newb else snd st)) in
+    (S (fst st), tk_concrete_sweep Zfx (tk_solve_chk (known || (0 <? fst st)) newb) (to_fx reg) Xz yz
+                   (if (fst st =? 0) && negb known then newb else snd st)) in
   reg_fit sweep (fun st => Regress.tucker_to_tensor Zfx (fst (snd st)) (snd (snd st))) znorm (zsmall (to_fx tol)) n_iter
-          (0, (mk [] [], [])).
+          (0, (t_to_fx G0, map t_to_fx W0)).
 Definition passes_eq {P} (a b : res (reg_stored (F:=Z) (P:=P))) (f : P -> nat) : bool :=
   match a, b with Ok x, Ok y => Nat.eqb (f (r_blocks x)) (f (r_blocks y)) | _, _ => false end.
 
@@ -158,9 +180,9 @@ Definition agree_k (k : kase) : bool :=
       let lo := plsr_run n_iter ncomp (tol * (4 # 5))%Q itape btape X Y in
       let hi := plsr_run n_iter ncomp (tol * (5 # 4))%Q itape btape X Y in
       if plsr_same lo hi then plsr_close lo e_loads e_scores e_yloads e_yscores else true
-  | KCpLoop n_iter tol reg R so X y tape eW efs =>
-      let lo := cp_loop_run n_iter (tol * (4 # 5))%Q reg R so X y tape in
-      let hi := cp_loop_run n_iter (tol * (5 # 4))%Q reg R so X y tape in
+  | KCpLoop n_iter tol reg R so X y W0 tape eW efs =>
+      let lo := cp_loop_run n_iter (tol * (4 # 5))%Q reg R so X y W0 tape in
+      let hi := cp_loop_run n_iter (tol * (5 # 4))%Q reg R so X y W0 tape in
       if passes_eq lo hi fst then
         match lo with
         | Ok st => qt_close ftol ftol (t_of_fx (r_weight_tensor st)) eW &&
@@ -168,9 +190,9 @@ Definition agree_k (k : kase) : bool :=
         | Err => false
         end
       else true
-  | KTkLoop n_iter tol reg X y tape eW =>
-      let lo := tk_loop_run n_iter (tol * (4 # 5))%Q reg X y tape in
-      let hi := tk_loop_run n_iter (tol * (5 # 4))%Q reg X y tape in
+  | KTkLoop n_iter tol reg X y G0 W0 tape eW =>
+      let lo := tk_loop_run n_iter (tol * (4 # 5))%Q reg X y G0 W0 tape in
+      let hi := tk_loop_run n_iter (tol * (5 # 4))%Q reg X y G0 W0 tape in
       if passes_eq lo hi fst then
         match lo with Ok st => qt_close ftol ftol (t_of_fx (r_weight_tensor st)) eW | Err => false end
       else true
@@ -179,12 +201,11 @@ Definition agree_k (k : kase) : bool :=
       all2 (fun a x => q_list_close atol rtol (map of_fx a) x)
            (ytransform_cols Zfx (center Zfx (t_to_fx Y) (t_to_fx ym)) Tc (map (map to_fx) bs) (map t_to_fx qs)) e
   | KPlsrFit n_iter ncomp tol itape btape X Y e_loads e_scores e_yloads e_yscores =>
-      let r := fit_cp Zfx zsqrt (fun Z => map t_to_fx (init_of itape (t_of_fx Z)))
-                      (fun G b => map to_fx (solve_of btape G b)) (to_fx tol) n_iter ncomp (t_to_fx X) (t_to_fx Y) in
-      all2 (all2 (fun a e => qt_close ftol ftol (t_of_fx a) e)) (loadings r) e_loads &&
-      all2 (fun a e => q_list_close ftol ftol (map of_fx a) e) (fitted_scores r) e_scores &&
-      all2 (fun a e => qt_close ftol ftol (t_of_fx a) e) (map (c_yload (F:=Z)) (comps r)) e_yloads &&
-      all2 (fun a e => q_list_close ftol ftol (map of_fx a) e) (map (c_yscore (F:=Z)) (comps r)) e_yscores
+      plsr_close (plsr_run n_iter ncomp tol itape btape X Y) e_loads e_scores e_yloads e_yscores
+  | KPlsrFitPerm p n_iter ncomp tol itape btape X Y e_loads e_scores e_yloads e_yscores =>
+      plsr_close_sel (pick Zfx (nsamp X) p) (plsr_run n_iter ncomp tol itape btape X Y) e_loads e_scores e_yloads e_yscores
+  | KPlsrBudget n_iter ncomp X Y raised =>
+      match plsr_run n_iter ncomp 0%Q [] [] X Y with Err => raised | Ok _ => negb raised end
   end.
 
 Definition case := (nat * kase)%type.
